@@ -62,22 +62,22 @@ type Violation struct {
 
 // Result is what executing a plan yields.
 type Result struct {
-	Run        int64            `json:"run"`
-	Trace      string           `json:"trace"`           // hash of the event log
-	SchedHash  string           `json:"sched,omitempty"` // hash of the (task,point) grant sequence
-	Shape      string           `json:"shape"`           // plan shape hash (kinds of ops)
-	Steps      int              `json:"steps"`
-	Faults     map[string]int64 `json:"faults,omitempty"` // fault kinds that actually fired
-	Probes     map[string]int64 `json:"probes,omitempty"` // rare conditions reached
-	States     []string         `json:"states,omitempty"` // abstract model states visited
-	SimTimeS   float64          `json:"simtime_s,omitempty"`
-	Nontrivial bool             `json:"nontrivial"`
-	Violations []Violation      `json:"violations,omitempty"`
-	Infra      string           `json:"infra,omitempty"`  // harness trouble (never a violation)
-	Evals      int64            `json:"evals,omitempty"`  // evaluations inside this run (default 1)
-	Cases      []string         `json:"cases,omitempty"`  // distinct non-trivial case ids inside this run
-	Replan     *Plan            `json:"replan,omitempty"` // a smaller explicit plan that reproduces the violation
-	Slice      string           `json:"slice,omitempty"`  // "k/w/from" of the child process that executed this run
+	Run        int64             `json:"run"`
+	Trace      string            `json:"trace"`           // hash of the event log
+	SchedHash  string            `json:"sched,omitempty"` // hash of the (task,point) grant sequence
+	Shape      string            `json:"shape"`           // plan shape hash (kinds of ops)
+	Steps      int               `json:"steps"`
+	Faults     map[string]int64  `json:"faults,omitempty"` // fault kinds that actually fired
+	Probes     map[string]int64  `json:"probes,omitempty"` // rare conditions reached
+	States     []string          `json:"states,omitempty"` // abstract model states visited
+	SimTimeS   float64           `json:"simtime_s,omitempty"`
+	Nontrivial bool              `json:"nontrivial"`
+	Violations []Violation       `json:"violations,omitempty"`
+	Infra      string            `json:"infra,omitempty"`   // harness trouble (never a violation)
+	Evals      int64             `json:"evals,omitempty"`   // evaluations inside this run (default 1)
+	Cases      []string          `json:"cases,omitempty"`   // distinct non-trivial case ids inside this run
+	Replan     *Plan             `json:"replan,omitempty"`  // a smaller explicit plan that reproduces the violation
+	Slice      string            `json:"slice,omitempty"`   // "k/w/from" of the child process that executed this run
 	Outputs    []string          `json:"outputs,omitempty"` // label=hash of what the check recorded for cross-process comparison
 	Dump       map[string]string `json:"dump,omitempty"`    // the bytes behind Outputs (plan knob dump=1)
 }
